@@ -386,16 +386,7 @@ theorem commit_exact (h0 : List Nat) (g0 : Nat → Author) (ops : List Op)
         have : (checkpoint spS.st none).head = sp.st.work := hprev'
         rw [hhC] at this
         exact this
-      show (enum1 sp.st.work).map (fun p => initialAuthor [] p.1) = _
-      have : ∀ (k : Nat) (l : List Nat), (enumFrom k l).map (fun p => initialAuthor [] p.1)
-          = l.map (fun _ => (none : Author)) := by
-        intro k l
-        induction l generalizing k with
-        | nil => rfl
-        | cons x xs ih =>
-          simp only [enumFrom, List.map_cons, ih (k + 1)]
-          simp [initialAuthor]
-      rw [enum1, this]
+      rw [checkpointAttr_no_claims]
       apply List.map_congr_left
       intro y hy
       have : y ∈ sp.st.head := hwh ▸ hy
